@@ -64,6 +64,13 @@ let filt_of v = match v with
 let default_score g =
   z_of_int (- (List.fold_left (fun acc (_, loc) -> acc + (List.length loc - 1) * 100 + 1) 0 (List.concat g)))
 
+(* ---- utility models ---- *)
+let rec bop_of v = match v with
+  | L [A "L"; I id; L loc] -> Leaf (nat_of_int id, List.map (fun x -> nat_of_int (int_of x)) loc)
+  | L [A "B"; L loc; L body] -> Blk (List.map (fun x -> nat_of_int (int_of x)) loc, List.map bop_of body)
+  | _ -> failwith "bop"
+let show_leaf (id, loc) = L [I (int_of_nat id); vnats loc]
+
 let handle line = match parse line with
   | [A "rw"; I k; c] -> L (List.map show_op (rewrite (List.nth all_rules k) (ops_of c)))
   | [A "nrules"] -> I (List.length all_rules)
@@ -97,6 +104,7 @@ let handle line = match parse line with
        | Some (Ok (g', v)) -> L [A "OK"; show_grid g'; I (int_of_nat v); L (List.rev !log)]
        | Some IndexErr -> L [A "IndexError"; L (List.rev !log)]
        | None -> A "FUEL")
+  | [A "iterrev"; g] -> L (List.map (fun (c, (id, _)) -> L [I (int_of_z c); I (int_of_nat id)]) (iter_rev (grid_of g)))
   | [A "iterfwd"; g] -> L (List.map (fun (c, (id, _)) -> L [I (int_of_z c); I (int_of_nat id)]) (iter_fwd (grid_of g)))
   (* rebase: counts table per cost call; templates given by their counts; C = source-gate count vector *)
   | [A "rebase"; I thr; I max_depth; I max_retries; I fuel; js; counts0; tcounts; I ocount; table; script] ->
@@ -113,6 +121,13 @@ let handle line = match parse line with
                (nat_of_int max_depth) (z_of_int max_retries) (nat_of_int fuel) (List.map nat_of_int (ints js)) s0 with
        | Some s -> L [A "OK"; vnats s.r_c; I (int_of_nat s.r_k); A (if s.r_changed then "T" else "F"); L (List.rev !picks)]
        | None -> L [A "FUEL"; L (List.rev !picks)])
+  | [A "unfold"; c] -> L (List.map show_leaf (unfold_all (List.map bop_of (list_of c))))
+  | [A "group"; tl] ->
+      let tl = List.map (fun p -> match ints p with [id; b] -> (nat_of_int id, b <> 0) | _ -> failwith "tl") (list_of tl) in
+      L (List.map (function Group ids -> L (A "G" :: List.map (fun i -> I (int_of_nat i)) ids) | Multi id -> L [A "M"; I (int_of_nat id)]) (group_single tl))
+  | [A "compress"; c] ->
+      let c = List.map (fun p -> match p with L [I id; L loc] -> (nat_of_int id, List.map (fun x -> nat_of_int (int_of x)) loc) | _ -> failwith "leaf") (list_of c) in
+      L (List.map (fun (k, (id, _)) -> L [I (int_of_nat k); I (int_of_nat id)]) (compress c))
   | _ -> A "BADCMD"
 
 let () =
